@@ -9,6 +9,7 @@ import PsutilModel.Base.Proto
 import PsutilModel.Model.C19Gen
 import PsutilModel.Spec.C19Cores
 import PsutilModel.Spec.C19Dir
+import PsutilModel.Spec.C19Boot
 open Lean Psutil Psutil.Proto Psutil.C19
 
 def asFS (j : Json) : R FileState :=
@@ -300,6 +301,29 @@ def handle (_ : Unit) (j : Json) : R (Unit × Json) := do
       | some r => okv (jRat (r.btime : Rat))
       | none => Json.null) sts)]
     return ((), answer m s)
+  if op == "boothist" then
+    -- a history of boot_time() / Process.create_time() / cpu_stats() calls in one interpreter (BOOT_TIME starts unset),
+    -- each on the /proc/stat of its own moment; specification = Spec.expected of that moment alone (no state)
+    let ticks ← natF j "ticks"
+    if ticks == 0 then .error "ticks must be positive"
+    let steps ← listD (fun e => do
+      let (st, rec) ← field e "stat" >>= asStat
+      let c ← strF e "call"
+      let call ← if c == "boot_time" then pure HCall.bootTime
+        else if c == "cpu_stats" then pure HCall.cpuStats
+        else if c == "create_time" then do
+          match st with
+          | .content _ => pure (HCall.createTime (← natF e "start"))
+          | _ => .error "a create_time step needs a readable stat file (wrap_exceptions is outside the model)"
+        else .error s!"unknown call {c}"
+      pure (({ stat := st, call := call } : HStep), rec)) j "steps"
+    let hs := steps.map (·.1)
+    let jH : HOut → Json := fun o => match o with | .time r => jRes jRat r | .stats r => jRes jStat r
+    let m := jObj [("outs", jList jH (histRun bootRule ticks none hs)), ("global", jOpt jRat (histGlobal bootRule ticks none hs))]
+    let sp := jObj [("outs", jList (fun (x : HStep × Option Spec.StatRec) => match x.2 with
+      | some r => (match Spec.expected ⟨r, x.1.call⟩ with | some e => jH e | none => Json.null)
+      | none => Json.null) steps)]
+    return ((), answer m sp)
   if op == "render" then
     let what ← strF j "what"
     if what == "cpuinfo" then
